@@ -412,9 +412,13 @@ def dim_obligations(ctx, rule, key, fn, it, geo, require=None):
     for node, v in it.vertex_stores:
         sinks.append((node, v, "vertex coordinates stored"))
     for node, v in it.returns:
-        for x in (v.items if v.items else [v]):
-            if x.verts is None and x.deg is not None and x.shape is not None and len(x.shape) >= 1:
-                sinks.append((node, x, "returned array"))
+        for pos, x in enumerate(v.items if v.items else [v]):
+            tgt = x.verts if x.verts is not None else x
+            if x.verts is not None and any(tgt is a for n_, a in it.vertex_stores):
+                continue
+            # the first returned value is the coordinates; further values (normals ...) only when their degree is known
+            if pos == 0 or tgt.deg is not None:
+                sinks.append((node, tgt, "returned coordinates"))
     if not sinks:
         ctx.fail(rule, site, f"no coordinates produced by {key[1]} were found", "neither a vertex store nor a returned array")
         return n + 1
@@ -442,7 +446,7 @@ def dim_obligations(ctx, rule, key, fn, it, geo, require=None):
     for node, v in it.returns:
         for x in (v.items if v.items else [v]):
             finals.append((node, x.verts if x.verts is not None else x))
-    for p in sorted(require or geo):
+    for p in sorted(require if require is not None else geo):
         n += 1
         alts = p if isinstance(p, tuple) else (p,)
         bad = None
